@@ -60,6 +60,9 @@ pub struct C01 {
 }
 
 impl NodeMon for C01 {
+    fn through_rights_divergence(&self) -> bool {
+        true
+    }
     fn node(&mut self, n: &Node, rep: &mut Report, rng: &mut Rng) {
         if n.diverged {
             return;
